@@ -460,7 +460,9 @@ func (c *Ctx) StateStoreDiscipline(prop string, s *Slashing, kind string) {
 		}
 		x, path := an.Cut(an.CutQuery{From: an.Entry(fn), Target: func(i ssa.Instruction) bool { return i == target },
 			AcceptEdge: func(b *ssa.BasicBlock, i int, a *an.Atom) bool {
-				return approvedEdge(a) || c.WithSummaries(func(a *an.Atom, sub Subst) bool { return s.watermarkAtomS(a, sub, d.Kind, d.StateFld, d.ReqField, d.Strict) })(b, i, a)
+				return approvedEdge(a) || c.WithSummaries(func(a *an.Atom, sub Subst) bool {
+					return s.watermarkAtomS(a, sub, d.Kind, d.StateFld, d.ReqField, d.Strict)
+				})(b, i, a)
 			}})
 		if x != nil {
 			bad++
